@@ -119,8 +119,11 @@ func (sk *SpaceKeeper) spacePlotter() {
 			sk.stateLock.Unlock()
 			return
 		}
+		var plotResult chan error
 		if _, ok := sk.workSpaceIndex[engine.Registered].Get(sid); ok {
 			changeState(engine.Registered, engine.Plotting)
+			// begin plotting before the lock is released: a stop that follows finds a plot to stop
+			plotResult = ws.db.Plot()
 		} else {
 			if _, ok := sk.workSpaceIndex[engine.Ready].Get(sid); ok && qws.wouldMining {
 				changeState(engine.Ready, engine.Mining)
@@ -131,7 +134,7 @@ func (sk *SpaceKeeper) spacePlotter() {
 		sk.stateLock.Unlock()
 
 		// Step 2: plot space (wait for finishing)
-		ws.Plot()
+		<-plotResult
 		verifGate("plotted", sid)
 
 		// Step 3: change workSpace state
